@@ -9,8 +9,9 @@ package main
 // protocol's schedule of the compressed format. One line per run.
 //
 // ops:
-//   gate.join   name= host= port= ouuid= auth= cproto= t= chk= reason= c2s= s2c=   => c= s= cname= cuuid= sname= suuid= sproto= cs= sc= rs= rc=
+//   gate.join   name= host= port= ouuid= auth= q= cproto= t= chk= reason= c2s= s2c=   => c= s= cname= cuuid= sname= suuid= sproto= cs= sc= rs= rc=
 //   disp.run    t= calls= regs= pkts=                                      => log=… end=…
+//   gate.listen t= pings= b= sa= sb=                                 => a= pings= b= ra= rb=
 //   gate.bot    name= ouuid= script=                                 => c= cname= cuuid= cs=
 //   gate.status mode=mem|tcp name= proto= max= online= desc= fav= ns= seq= payload=  => r=…
 
@@ -40,6 +41,7 @@ import (
 	"github.com/Tnze/go-mc/data/packetid"
 	mcnet "github.com/Tnze/go-mc/net"
 	pk "github.com/Tnze/go-mc/net/packet"
+	"github.com/Tnze/go-mc/net/queue"
 	"github.com/Tnze/go-mc/server"
 	"github.com/Tnze/go-mc/yggdrasil/user"
 )
@@ -59,6 +61,7 @@ type memHalf struct {
 	all    []byte // every byte ever written (the tap)
 	wclose bool   // writer closed: reader drains, then EOF
 	rclose bool   // reader closed: writes fail
+	blockW bool   // writes wait (a socket whose send buffer is full)
 }
 
 func newHalf() *memHalf {
@@ -107,6 +110,9 @@ func (c *memConn) Write(p []byte) (int, error) {
 	h := c.wr
 	h.mu.Lock()
 	defer h.mu.Unlock()
+	for h.blockW && !h.wclose && !h.rclose {
+		h.cond.Wait()
+	}
 	if h.wclose || h.rclose {
 		return 0, io.ErrClosedPipe
 	}
@@ -128,6 +134,14 @@ func (c *memConn) Close() error {
 		c.rd.mu.Unlock()
 	})
 	return nil
+}
+
+// c19BlockWrites makes Write wait (true) or lets it proceed (false).
+func (c *memConn) c19BlockWrites(b bool) {
+	c.wr.mu.Lock()
+	c.wr.blockW = b
+	c.wr.cond.Broadcast()
+	c.wr.mu.Unlock()
 }
 
 func (c *memConn) written() []byte {
@@ -424,6 +438,7 @@ type joinCase struct {
 	t      int
 	chk    string // nil | acc | ref
 	reason string
+	qr, qw string // JoinOptions.QueueRead / QueueWrite: "" (not given) | nil | linked | chan16 | chan4096
 	auth   string // bot Auth.UUID as 32 hex digits; "" = empty (the hello then carries the zero UUID)
 	c2s    []playPkt
 	s2c    []playPkt
@@ -441,9 +456,17 @@ func (j joinCase) args() []string {
 	ou := offlineUUIDRef(j.name)
 	return []string{
 		"name=" + hx([]byte(j.name)), "host=" + hx([]byte(j.host)), "port=" + strconv.Itoa(j.port),
-		"ouuid=" + hex.EncodeToString(ou[:]), "auth=" + c19Dash(j.auth), "cproto=" + strconv.Itoa(bot.ProtocolVersion), "t=" + strconv.Itoa(j.t), "chk=" + j.chk, "reason=" + hx([]byte(j.reason)),
+		"ouuid=" + hex.EncodeToString(ou[:]), "auth=" + c19Dash(j.auth), "q=" + c19Dash(c19QArg(j.qr, j.qw)), "cproto=" + strconv.Itoa(bot.ProtocolVersion), "t=" + strconv.Itoa(j.t), "chk=" + j.chk, "reason=" + hx([]byte(j.reason)),
 		"c2s=" + pktsArg(j.c2s), "s2c=" + pktsArg(j.s2c),
 	}
+}
+
+func c19QPart(q string, i int) string {
+	f := strings.Split(q, "/")
+	if len(f) != 2 {
+		return ""
+	}
+	return f[i]
 }
 
 func c19Dash(s string) string {
@@ -458,6 +481,37 @@ func c19Undash(s string) string {
 		return ""
 	}
 	return s
+}
+
+func c19QArg(qr, qw string) string {
+	if qr == "" && qw == "" {
+		return ""
+	}
+	return qr + "/" + qw
+}
+
+// c19Queue builds the queue a JoinOptions field gets; nil leaves the field unset (the bot then makes a LinkedQueue)
+func c19Queue(kind string) queue.Queue[pk.Packet] {
+	switch kind {
+	case "linked":
+		return queue.NewLinkedQueue[pk.Packet]()
+	case "chan16":
+		return queue.NewChannelQueue[pk.Packet](16)
+	case "chan4096":
+		return queue.NewChannelQueue[pk.Packet](4096)
+	}
+	return nil
+}
+
+// c19QueueCap: how many packets a queue of this kind holds (-1: unbounded)
+func c19QueueCap(kind string) int {
+	switch kind {
+	case "chan16":
+		return 16
+	case "chan4096":
+		return 4096
+	}
+	return -1
 }
 
 func classifyJoinErr(err error) string {
@@ -519,6 +573,7 @@ func runJoin(j joinCase) string {
 	}
 	srvRecv := &recvLog{}
 	clientDone := make(chan struct{})
+	srvWrote := make(chan struct{})
 	srvErr := ""
 	gp := &gamePlay{}
 	gp.play = func(conn *mcnet.Conn) {
@@ -526,6 +581,7 @@ func runJoin(j joinCase) string {
 		wg.Add(1)
 		go func() {
 			defer wg.Done()
+			defer close(srvWrote)
 			for _, p := range j.s2c {
 				if err := conn.WritePacket(pk.Packet{ID: p.id, Data: p.data()}); err != nil {
 					srvErr = "!werr"
@@ -584,10 +640,31 @@ func runJoin(j joinCase) string {
 		return nil
 	}})
 	addr := net.JoinHostPort(j.host, strconv.Itoa(j.port))
-	err := cl.JoinServerWithOptions(addr, bot.JoinOptions{MCDialer: fixedDialer{cEnd}})
+	burst := j.qr != "" || j.qw != ""
+	err := cl.JoinServerWithOptions(addr, bot.JoinOptions{MCDialer: fixedDialer{cEnd}, QueueRead: c19Queue(j.qr), QueueWrite: c19Queue(j.qw)})
 	cRes := classifyJoinErr(err)
 	cliExtra := ""
 	if err == nil {
+		if burst {
+			// bursts: the bot's socket stops accepting writes, so everything the bot sends has to wait in its SEND queue
+			// (QueueWrite); and the bot does not call HandleGame before the server has written everything, so everything
+			// the server sends has to wait in the bot's RECEIVE queue (QueueRead)
+			cEnd.c19BlockWrites(true)
+			for _, p := range j.c2s {
+				if e := cl.Conn.WritePacket(pk.Packet{ID: p.id, Data: p.data()}); e != nil {
+					cliExtra = "!werr"
+				}
+			}
+			if e := cl.Conn.WritePacket(pk.Packet{ID: c19MarkerC2S, Data: endMagic}); e != nil {
+				cliExtra = "!werr"
+			}
+			cEnd.c19BlockWrites(false)
+			select {
+			case <-srvWrote:
+			case <-time.After(c19RunTimeout / 2):
+			}
+			time.Sleep(30 * time.Millisecond)
+		}
 		hgDone := make(chan error, 1)
 		go func() {
 			defer func() {
@@ -597,20 +674,25 @@ func runJoin(j joinCase) string {
 			}()
 			hgDone <- cl.HandleGame()
 		}()
-		for _, p := range j.c2s {
-			if e := cl.Conn.WritePacket(pk.Packet{ID: p.id, Data: p.data()}); e != nil {
+		if !burst {
+			for _, p := range j.c2s {
+				if e := cl.Conn.WritePacket(pk.Packet{ID: p.id, Data: p.data()}); e != nil {
+					cliExtra = "!werr"
+				}
+			}
+			if e := cl.Conn.WritePacket(pk.Packet{ID: c19MarkerC2S, Data: endMagic}); e != nil {
 				cliExtra = "!werr"
 			}
-		}
-		if e := cl.Conn.WritePacket(pk.Packet{ID: c19MarkerC2S, Data: endMagic}); e != nil {
-			cliExtra = "!werr"
 		}
 		herr := <-hgDone
 		if !errors.Is(herr, errC19End) {
 			cliExtra += "!hgerr"
 		}
-		// wait until the server has read everything before closing
+		// wait until the server has read everything before closing (it never will if a send failed)
 		close(clientDone)
+		if cliExtra != "" {
+			cEnd.Close()
+		}
 		<-srvDone
 		cl.Close()
 	} else {
@@ -1171,6 +1253,139 @@ func c19BotScript(r *rand.Rand) []string {
 }
 
 // ---------------------------------------------------------------------------------------------
+// gate.listen: the TCP entry point (*Server).Listen with OVERLAPPING connections. Bot A joins and stays connected;
+// meanwhile k status pings and (optionally) a second bot B arrive; then the server sends each player its own play
+// packets: each must receive exactly its own, intact and in order. Every blocking step has a deadline.
+
+type c19ListenCase struct {
+	t     int
+	pings int
+	b     bool
+	na    []playPkt
+	nb    []playPkt
+}
+
+func (l c19ListenCase) args() []string {
+	b := "0"
+	if l.b {
+		b = "1"
+	}
+	return []string{"t=" + strconv.Itoa(l.t), "pings=" + strconv.Itoa(l.pings), "b=" + b, "sa=" + pktsArg(l.na), "sb=" + pktsArg(l.nb)}
+}
+
+func c19Listen(c *Ctx, l c19ListenCase) {
+	obs, ran := c19Watch(func() string { return c19RunListen(l) })
+	if !ran {
+		return
+	}
+	c.Emit("gate.listen", l.args(), obs)
+}
+
+type c19MultiPlay struct {
+	mu      sync.Mutex
+	send    map[string][]playPkt
+	release chan struct{}
+	done    chan struct{}
+}
+
+func (g *c19MultiPlay) AcceptPlayer(name string, id uuid.UUID, _ *user.PublicKey, _ []user.Property, protocol int32, conn *mcnet.Conn) {
+	select {
+	case <-g.release:
+	case <-time.After(c19RunTimeout):
+		return
+	}
+	g.mu.Lock()
+	ps := g.send[name]
+	g.mu.Unlock()
+	for _, p := range ps {
+		if conn.WritePacket(pk.Packet{ID: p.id, Data: p.data()}) != nil {
+			return
+		}
+	}
+	_ = conn.WritePacket(pk.Packet{ID: c19MarkerS2C, Data: endMagic})
+	select {
+	case <-g.done:
+	case <-time.After(c19RunTimeout):
+	}
+}
+
+func c19RunListen(l c19ListenCase) string {
+	// a free loopback port for Listen (it takes an address, not a listener)
+	probe, err := net.Listen("tcp", "127.0.0.1:0")
+	if err != nil {
+		return "nolisten"
+	}
+	addr := probe.Addr().String()
+	probe.Close()
+	gp := &c19MultiPlay{send: map[string][]playPkt{"A": l.na, "B": l.nb}, release: make(chan struct{}), done: make(chan struct{})}
+	defer close(gp.done)
+	srv := &server.Server{ListPingHandler: defaultPing(), LoginHandler: &server.MojangLoginHandler{Threshold: l.t},
+		ConfigHandler: finishOnlyConfig{}, GamePlay: gp}
+	go func() { _ = srv.Listen(addr) }() // Listen has no way to stop: the listener is abandoned with the run
+
+	join := func(name string) (*bot.Client, *recvLog, string) {
+		cl := bot.NewClient()
+		cl.Auth.Name = name
+		rl := &recvLog{}
+		cl.Events.AddGeneric(bot.PacketHandler{F: func(p pk.Packet) error {
+			if p.ID == c19MarkerS2C && bytes.Equal(p.Data, endMagic) {
+				return errC19End
+			}
+			rl.add(p.ID, p.Data)
+			return nil
+		}})
+		var jerr error
+		for try := 0; try < 50; try++ { // until Listen is up
+			jerr = cl.JoinServerWithOptions(addr, bot.JoinOptions{MCDialer: &mcnet.Dialer{Timeout: 2 * time.Second}})
+			if jerr == nil || !strings.Contains(jerr.Error(), "connect server") {
+				break
+			}
+			time.Sleep(20 * time.Millisecond)
+		}
+		return cl, rl, classifyJoinErr(jerr)
+	}
+	recv := func(cl *bot.Client, rl *recvLog) string {
+		_ = cl.Conn.Socket.SetReadDeadline(time.Now().Add(3 * time.Second))
+		herr := cl.HandleGame()
+		out := rl.String()
+		if !errors.Is(herr, errC19End) {
+			out += "!hgerr"
+		}
+		return out
+	}
+
+	a, ra, aRes := join("A")
+	if aRes != "joined" {
+		return "a=" + aRes
+	}
+	defer a.Close()
+	okPings := 0
+	for i := 0; i < l.pings; i++ {
+		if js, _, e := bot.PingAndListTimeout(addr, 2*time.Second); e == nil && strings.HasPrefix(canonStatus(js), "L:7665726966:") {
+			okPings++
+		}
+	}
+	bRes, rbs := "-", "-"
+	var b *bot.Client
+	var rb *recvLog
+	if l.b {
+		b, rb, bRes = join("B")
+		if bRes == "joined" {
+			defer b.Close()
+		}
+	}
+	close(gp.release)
+	var wg sync.WaitGroup
+	if l.b && bRes == "joined" {
+		wg.Add(1)
+		go func() { defer wg.Done(); rbs = recv(b, rb) }()
+	}
+	ras := recv(a, ra)
+	wg.Wait()
+	return fmt.Sprintf("a=%s pings=%d b=%s ra=%s rb=%s", aRes, okPings, bRes, ras, rbs)
+}
+
+// ---------------------------------------------------------------------------------------------
 // replay
 
 func kvArgs(args []string) map[string]string {
@@ -1190,9 +1405,11 @@ func replayC19(c *Ctx, op string, args []string) bool {
 	switch op {
 	case "gate.join":
 		c19Join(c, joinCase{name: string(unhx(m["name"])), host: string(unhx(m["host"])), port: c19Atoi(m["port"]), t: c19Atoi(m["t"]),
-			chk: m["chk"], reason: string(unhx(m["reason"])), auth: c19Undash(m["auth"]), c2s: c19ParsePkts(m["c2s"]), s2c: c19ParsePkts(m["s2c"])})
+			chk: m["chk"], reason: string(unhx(m["reason"])), auth: c19Undash(m["auth"]), qr: c19QPart(m["q"], 0), qw: c19QPart(m["q"], 1), c2s: c19ParsePkts(m["c2s"]), s2c: c19ParsePkts(m["s2c"])})
 	case "disp.run":
 		c19DispN(c, c19Atoi(m["t"]), c19Atoi(m["calls"]), parseRegs(m["regs"]), parseIDs(m["pkts"]))
+	case "gate.listen":
+		c19Listen(c, c19ListenCase{t: c19Atoi(m["t"]), pings: c19Atoi(m["pings"]), b: m["b"] == "1", na: c19ParsePkts(m["sa"]), nb: c19ParsePkts(m["sb"])})
 	case "gate.bot":
 		var sc []string
 		if m["script"] != "-" && m["script"] != "" {
@@ -1321,6 +1538,25 @@ func genC19(c *Ctx) {
 			c2s: c19BigPkts(r, 58, c19MarkerC2S), s2c: c19BigPkts(r, guardID, c19MarkerS2C)})
 	}
 
+	// JoinOptions.QueueRead / QueueWrite drawn independently; a burst in each direction as large as the queue of THAT
+	// direction allows (QueueWrite bounds what the bot can have pending to send, QueueRead what it can have received
+	// and not yet handled): 200 packets for an unbounded queue, capacity-1 (plus the end marker) for a bounded one
+	qkinds := []string{"nil", "linked", "chan16", "chan4096"}
+	for _, qr := range qkinds {
+		for _, qw := range qkinds {
+			nc2s, ns2c := 200, 200
+			if k := c19QueueCap(qw); k >= 0 && k-1 < nc2s {
+				nc2s = k - 1
+			}
+			if k := c19QueueCap(qr); k >= 0 && k-1 < ns2c {
+				ns2c = k - 1
+			}
+			t := c19Thresholds[r.Intn(len(c19Thresholds))]
+			c19Join(c, joinCase{name: "queues", host: "localhost", port: 25565, t: t, chk: "nil", qr: qr, qw: qw,
+				c2s: c19Pkts(r, nc2s, t, 58, 300, c19MarkerC2S), s2c: c19Pkts(r, ns2c, t, guardID, 300, c19MarkerS2C)})
+		}
+	}
+
 	// ---- dispatch: random registration histories and packet lists
 	for k := 0; k < c.N(3000, 12000); k++ {
 		c19Disp(c, c19Thresholds[r.Intn(len(c19Thresholds))], c19Regs(r, guardID, k), c19DispPkts(r, guardID, k))
@@ -1344,6 +1580,15 @@ func genC19(c *Ctx) {
 			calls := []regCall{{generic: true, es: []regEntry{{0, 0, 1, 0}}}, {es: []regEntry{{2, 0, 2, 0}}}}
 			c19Disp(c, c19Thresholds[r.Intn(len(c19Thresholds))], calls, ids)
 		}
+	}
+
+	// ---- Listen over loopback TCP with overlapping connections (a handful: loopback is slow)
+	for _, lc := range []c19ListenCase{{t: 64, pings: 2, b: false}, {t: 64, pings: 0, b: true}, {t: 64, pings: 1, b: true}, {t: -1, pings: 1, b: true}, {t: 0, pings: 3, b: false}} {
+		lc.na = c19Pkts(r, 6, lc.t, guardID, 400, c19MarkerS2C)
+		if lc.b {
+			lc.nb = c19Pkts(r, 5, lc.t, guardID, 400, c19MarkerS2C)
+		}
+		c19Listen(c, lc)
 	}
 
 	// ---- the real bot against a scripted server (login loop)
